@@ -5,6 +5,23 @@ def P(**kw):
     return kw
 
 PROPS = {
+    "C01": P(
+        title="untrusted bytes -> message only if spec-valid, safely",
+        level="exploration",
+        technique="structure-aware coverage-guided fuzzing (libFuzzer) with an independent specification validator/decoder as differential oracle, plus ASan/UBSan on exact-size buffers",
+        level_text=("Exploration: generated valid messages of every type/field/nesting shape, every single-site corruption operator, limit-boundary shapes and coverage-guided raw bytes are fed to the "
+                    "loader, dbus_message_demarshal and bytes_needed; acceptance, frame count, corruption flag, public-API read-back and re-marshal bytes are compared with an independent decoder. "
+                    "A sample of an infinite input space, steered by coverage; not a proof of absence."),
+        level_note="Trusts engine/wire.cc + grammar.cc as the reading of the specification; UNSPEC zones (value depth exactly 65, nested-vs-consecutive array depth, h indices) carry no verdict; inputs near 128 MiB are a few fixed shapes only.",
+        rule=("case = byte string (+ number of accompanying descriptors) decoded from fuzzer input: structured (valid message from the generator, 0-2 corruption operators, optional second frame), "
+              "raw (coverage-guided bytes) or boundary (2^26/2^27 shapes). Non-trivial = the 16-byte fixed header passes the length sanity check and the declared frame is complete, so field and body "
+              "validation actually run; distinct = FNV-1a hash of the byte string."),
+        phases=[
+            P(kind="enum", bin="c01_parse_enum", quick=[], thorough=[], shards_quick=8, shards_thorough=16),
+            P(kind="fuzz", bin="c01_parse", runs_quick=240000, runs_thorough=40000000, workers_quick=8, workers_thorough=16, max_len=4096, rss=6000, timeout=60),
+        ],
+        floor_quick=20000, floor_thorough=1000000,
+    ),
     "C16": P(
         title="grammar predicates",
         level="exploration",
